@@ -44,6 +44,10 @@ func vxBoundType(id string) ast.BaseTerm {
 	case 3:
 		return vxNameC("/a")
 	case 4:
+		if vxParam("PARSED", 0) == 1 {
+			// the shape the parser gives to fn:Union(/number, /string): arity = number of arguments
+			return ast.ApplyFn{Function: ast.FunctionSym{Symbol: symbols.UnionType.Symbol, Arity: 2}, Args: []ast.BaseTerm{ast.NumberBound, ast.StringBound}}
+		}
 		return symbols.NewUnionType(ast.NumberBound, ast.StringBound)
 	case 5:
 		return ast.AnyBound
